@@ -17,6 +17,7 @@ import (
 	"go/token"
 	"sort"
 	"strconv"
+	"strings"
 )
 
 func c03IndexOf(e ast.Expr, base string) (int, bool) {
@@ -369,6 +370,39 @@ func init() {
 		tag("xlsxC", "setInlineStr", "T", "inlineTag")
 		tag("File", "SetCellFormula", "T", "formulaTag")
 		tag("File", "SetCellRichText", "T", "richTag")
+		// countSharedFormula: the index of a new shared formula is (highest index in use) + 1
+		shape := "other"
+		if fd := funcDecl("xlsxWorksheet", "countSharedFormula"); fd == nil || fd.Body == nil {
+			fail("countSharedFormula: function")
+		} else {
+			ast.Inspect(fd.Body, func(nd ast.Node) bool {
+				ifs, ok := nd.(*ast.IfStmt)
+				if !ok || len(ifs.Body.List) != 1 {
+					return true
+				}
+				as, ok := ifs.Body.List[0].(*ast.AssignStmt)
+				if !ok || len(as.Lhs) != 1 || len(as.Rhs) != 1 || as.Tok != token.ASSIGN {
+					return true
+				}
+				lhs, ok := as.Lhs[0].(*ast.Ident)
+				if !ok || lhs.Name != "count" {
+					return true
+				}
+				// the condition ends in `<index>+1 > count` and the body assigns that same `<index> + 1`
+				leaves := c03Flatten(ifs.Cond, token.LAND)
+				last, ok := leaves[len(leaves)-1].(*ast.BinaryExpr)
+				if ok && last.Op == token.GTR {
+					if y, ok := last.Y.(*ast.Ident); ok && y.Name == "count" {
+						norm := func(e ast.Expr) string { return strings.ReplaceAll(src(e), " ", "") }
+						if norm(last.X) == norm(as.Rhs[0]) && strings.HasSuffix(norm(last.X), ".Si+1") {
+							shape = "max+1"
+						}
+					}
+				}
+				return true
+			})
+		}
+		fmt.Fprintf(w, "def countSharedFormulaShape : String := %s\n", leanStr(shape))
 		// the types SetCellFormula treats specially when it leaves the old value behind as cached result
 		w.WriteString("def formulaSwitchCases : List String := [")
 		if fd := funcDecl("File", "SetCellFormula"); fd == nil || fd.Body == nil {
